@@ -87,6 +87,21 @@ def _const_fn_call(h):
             if k == "pref":
                 return conv(t[1], d + 1)
             return ("?", "ref")
+        if k == "str":
+            return ("Str", t[1])
+        if k == "agg" and t[1] == "adt" and last(t[2]) == "Variant" and t[4] and set(t[4]) == {"name", "data"}:
+            fs = dict(zip(t[4], t[5]))
+            return ("Variant", conv(fs["name"], d + 1), conv(fs["data"], d + 1))
+        if k == "agg" and t[1] == "adt" and last(t[2]) == "NamedType" and t[4] and set(t[4]) == {"name", "ty"}:
+            fs = dict(zip(t[4], t[5]))
+            return ("Named", conv(fs["name"], d + 1), conv(fs["ty"], d + 1))
+        if k == "agg" and t[1] == "adt" and last(t[2]) == "Data":
+            v, ops = t[3], t[5]
+            if v == "Unit" and not ops:
+                return ("DUnit",)
+            if v == "Newtype" and len(ops) == 1:
+                return ("DNewtype", conv(ops[0], d + 1))
+            return ("?", "data %s" % v)
         if k == "agg" and t[1] == "adt" and (t[2] or "").endswith("DataModelType"):
             v = t[3]
             ops = t[5]
@@ -123,6 +138,8 @@ def schema_term(h, F=None):
     if not isinstance(h, dict):
         return ("?", "not a tree")
     k = h.get("k")
+    if k == "lit" and h.get("str") is not None:
+        return ("Str", h["str"])          # only meaningful as an argument of a local const fn
     if k == "path":
         rk = h.get("rk", "")
         if rk.startswith("Ctor"):
@@ -175,6 +192,10 @@ def schema_term(h, F=None):
             if a.get("k") == "array":
                 for x in a["es"]:
                     x = strip(x)
+                    cf = _const_fn_call(x) if x.get("k") == "call" else None
+                    if cf is not None and cf[0] == "Variant" and cf[1][0] == "Str":
+                        vs.append((cf[1][1], cf[2]))          # a local const fn that builds the Variant from its arguments
+                        continue
                     xf = {f["name"]: f["e"] for f in x.get("fields", [])}
                     vs.append((lit_str(xf.get("name")), schema_term(xf.get("data"))))
             return ("Enum", lit_str(fs.get("name")), vs)
@@ -184,6 +205,9 @@ def schema_term(h, F=None):
 
 def named_field(x):
     x = strip(x)
+    cf = _const_fn_call(x) if x.get("k") == "call" else None
+    if cf is not None and cf[0] == "Named" and cf[1][0] == "Str":
+        return (cf[1][1], cf[2])
     fs = {f["name"]: f["e"] for f in x.get("fields", [])}
     return (lit_str(fs.get("name")), schema_term(fs.get("ty")))
 
